@@ -401,7 +401,7 @@ fn main() {
                     std::process::exit(1);
                 }
             }
-            let outcome = vkit::run_prop(prop, vkit::workers_for(tier), tier.pick(6, 130), strategy, check);
+            let outcome = vkit::run_prop(prop, vkit::workers_for(tier), tier.pick(12, 200), strategy, check);
             stats.set_extra("distinct_load_orders_per_description", serde_json::json!(EXAMPLES.iter().zip(orders.lock().unwrap().iter()).map(|(e, o)| (e.to_string(), o.len())).collect::<BTreeMap<_, _>>()));
             let outcome = match outcome {
                 Outcome::Held if stats.distinct_nontrivial() < 2 => Outcome::Inconclusive("generator produced no non-trivial case".into()),
